@@ -80,10 +80,11 @@ theorem checkVar_var_args (n l : String) (args : List Tk) (hl : (l != "var") = f
       | ident v => exact ⟨v, dflt, rfl⟩
       | _ => simp [varHead, hl'] at h
 
-theorem resolveVar_zero (env : Env) (t : Tk) : resolveVar env 0 t = .error .recursion := rfl
+theorem resolveVar_zero (env : Env) (seen : List String) (t : Tk) : resolveVar env seen 0 t = .error .recursion := rfl
 
 /-- (RN) `None` is only returned for a token without detectable `var()`. -/
-theorem resolveVar_none (env : Env) (fuel : Nat) (t : Tk) (h : resolveVar env fuel t = .ok none) :
+theorem resolveVar_none (env : Env) (seen : List String) (fuel : Nat) (t : Tk)
+    (h : resolveVar env seen fuel t = .ok none) :
     checkVar t = false := by
   cases fuel with
   | zero => cases h
@@ -97,7 +98,7 @@ theorem resolveVar_none (env : Env) (fuel : Nat) (t : Tk) (h : resolveVar env fu
         simp only [resolveVar, hc, Bool.not_true, Bool.false_eq_true, if_false] at h
         by_cases hl : (lname != "var") = true
         · simp only [hl, if_true] at h
-          cases hm : args.mapM (argStep (resolveVar env fuel)) with
+          cases hm : args.mapM (argStep (resolveVar env seen fuel)) with
           | error e => rw [hm] at h; cases h
           | ok parts =>
             rw [hm] at h
@@ -111,7 +112,7 @@ theorem resolveVar_none (env : Env) (fuel : Nat) (t : Tk) (h : resolveVar env fu
         · have hl' : (lname != "var") = false := by simpa using hl
           obtain ⟨v, dflt, hp⟩ := checkVar_var_args name lname args hl' hc
           simp only [hl', Bool.false_eq_true, if_false, hp] at h
-          generalize List.mapM (valueStep (resolveVar env fuel)) _ = m at h
+          generalize List.mapM (valueStep (resolveVar env _ fuel)) _ = m at h
           cases m <;> cases h
       | _ => simp [checkVar] at hc
 
@@ -179,19 +180,19 @@ theorem valueStep_ok (rv : Tk → R (Option (List Tk))) (a : Tk) (p : List Tk) (
     | some r => cases h; exact Or.inl rfl
 
 /-- The three shapes of a successful call with fuel left. -/
-theorem resolveVar_succ_cases (env : Env) (fuel : Nat) (t : Tk) (r : Option (List Tk))
-    (h : resolveVar env (fuel + 1) t = .ok r) :
+theorem resolveVar_succ_cases (env : Env) (seen : List String) (fuel : Nat) (t : Tk) (r : Option (List Tk))
+    (h : resolveVar env seen (fuel + 1) t = .ok r) :
     (checkVar t = false ∧ r = none) ∨
     (∃ name lname args parts o, t = .fn name lname args ∧ checkVar t = true ∧ (lname != "var") = true ∧
-      args.mapM (argStep (resolveVar env fuel)) = .ok parts ∧
-      resolveVar env fuel (.fn name lname parts.flatten) = .ok o ∧
+      args.mapM (argStep (resolveVar env seen fuel)) = .ok parts ∧
+      resolveVar env seen fuel (.fn name lname parts.flatten) = .ok o ∧
       r = some (match o with
         | some r2 => if r2.isEmpty then [Tk.fn name lname parts.flatten] else r2
         | none => [Tk.fn name lname parts.flatten])) ∨
     (∃ name lname args v dflt parts, t = .fn name lname args ∧ checkVar t = true ∧ (lname != "var") = false ∧
       parseArgs args false = some (.ident v :: dflt) ∧
-      (if (env (dashToUnderscore v)).isEmpty then dflt else env (dashToUnderscore v)).mapM
-        (valueStep (resolveVar env fuel)) = .ok parts ∧
+      (varValues env seen (dashToUnderscore v) dflt).mapM
+        (valueStep (resolveVar env (seen ++ [dashToUnderscore v]) fuel)) = .ok parts ∧
       r = some parts.flatten) := by
   cases hc : checkVar t with
   | false =>
@@ -206,12 +207,12 @@ theorem resolveVar_succ_cases (env : Env) (fuel : Nat) (t : Tk) (r : Option (Lis
       by_cases hl : (lname != "var") = true
       · left
         simp only [hl, if_true] at h
-        cases hm : args.mapM (argStep (resolveVar env fuel)) with
+        cases hm : args.mapM (argStep (resolveVar env seen fuel)) with
         | error e => rw [hm] at h; cases h
         | ok parts =>
           rw [hm] at h
           simp only [bind, Except.bind] at h
-          cases h2 : resolveVar env fuel (.fn name lname parts.flatten) with
+          cases h2 : resolveVar env seen fuel (.fn name lname parts.flatten) with
           | error e => rw [h2] at h; cases h
           | ok o =>
             rw [h2] at h
@@ -225,8 +226,8 @@ theorem resolveVar_succ_cases (env : Env) (fuel : Nat) (t : Tk) (r : Option (Lis
         have hl' : (lname != "var") = false := by simpa using hl
         obtain ⟨v, dflt, hp⟩ := checkVar_var_args name lname args hl' hc
         simp only [hl', Bool.false_eq_true, if_false, hp] at h
-        cases hm : (if (env (dashToUnderscore v)).isEmpty then dflt else env (dashToUnderscore v)).mapM
-            (valueStep (resolveVar env fuel)) with
+        cases hm : (varValues env seen (dashToUnderscore v) dflt).mapM
+            (valueStep (resolveVar env (seen ++ [dashToUnderscore v]) fuel)) with
         | error e => rw [hm] at h; cases h
         | ok parts =>
           rw [hm] at h
@@ -236,10 +237,12 @@ theorem resolveVar_succ_cases (env : Env) (fuel : Nat) (t : Tk) (r : Option (Lis
 
 /-- (NV) what `resolve_var` returns contains no detectable `var()` any more. -/
 theorem resolveVar_no_var (env : Env) :
-    ∀ (fuel : Nat) (t : Tk) (r : List Tk), resolveVar env fuel t = .ok (some r) → ∀ x ∈ r, checkVar x = false
-  | 0, _, _, h => by cases h
-  | fuel + 1, t, r, h => by
-    rcases resolveVar_succ_cases env fuel t _ h with ⟨_, hr⟩ | ⟨name, lname, args, parts, o, rfl, hc, hl, hm, h2, hr⟩ |
+    ∀ (fuel : Nat) (seen : List String) (t : Tk) (r : List Tk), resolveVar env seen fuel t = .ok (some r) →
+      ∀ x ∈ r, checkVar x = false
+  | 0, _, _, _, h => by cases h
+  | fuel + 1, seen, t, r, h => by
+    rcases resolveVar_succ_cases env seen fuel t _ h with ⟨_, hr⟩ |
+        ⟨name, lname, args, parts, o, rfl, hc, hl, hm, h2, hr⟩ |
         ⟨name, lname, args, v, dflt, parts, rfl, hc, hl, hp, hm, hr⟩
     · cases hr
     · have hparts : ∀ x ∈ parts.flatten, checkVar x = false := by
@@ -248,10 +251,10 @@ theorem resolveVar_no_var (env : Env) :
         obtain ⟨p, hp, hxp⟩ := hx
         obtain ⟨a, _, hfa⟩ := mapM_ok_mem _ args parts hm p hp
         rcases argStep_ok _ a p hfa with hra | ⟨hra, rfl⟩ | ⟨hleaf, rfl⟩
-        · exact resolveVar_no_var env fuel _ p hra x hxp
+        · exact resolveVar_no_var env fuel seen _ p hra x hxp
         · simp only [List.mem_singleton] at hxp
           subst hxp
-          exact resolveVar_none env fuel x hra
+          exact resolveVar_none env seen fuel x hra
         · simp only [List.mem_singleton] at hxp
           subst hxp
           exact checkVar_leaf x hleaf
@@ -277,10 +280,133 @@ theorem resolveVar_no_var (env : Env) :
       obtain ⟨p, hp', hxp⟩ := hx
       obtain ⟨a, _, hfa⟩ := mapM_ok_mem _ _ parts hm p hp'
       rcases valueStep_ok _ a p hfa with hra | ⟨hra, rfl⟩
-      · exact resolveVar_no_var env fuel a p hra x hxp
+      · exact resolveVar_no_var env fuel _ a p hra x hxp
       · simp only [List.mem_singleton] at hxp
         subst hxp
-        exact resolveVar_none env fuel x hra
+        exact resolveVar_none env _ fuel x hra
 
+/-- The rebuilt function of the non-`var` branch carries no detectable `var()`: the second `resolve_var` on it
+returns `None` (so `… or (token,)` always takes `(token,)`). -/
+theorem rebuilt_no_var (env : Env) (seen : List String) (fuel : Nat) (name lname : String) (args : List Tk)
+    (parts : List (List Tk)) (hl : (lname != "var") = true)
+    (hm : args.mapM (argStep (resolveVar env seen fuel)) = .ok parts) :
+    checkVar (.fn name lname parts.flatten) = false := by
+  apply checkVar_fn_false name lname parts.flatten hl
+  intro x hx
+  simp only [List.mem_flatten] at hx
+  obtain ⟨p, hp, hxp⟩ := hx
+  obtain ⟨a, _, hfa⟩ := mapM_ok_mem _ args parts hm p hp
+  rcases argStep_ok _ a p hfa with hra | ⟨hra, rfl⟩ | ⟨hleaf, rfl⟩
+  · exact resolveVar_no_var env fuel seen _ p hra x hxp
+  · simp only [List.mem_singleton] at hxp
+    subst hxp
+    exact resolveVar_none env seen fuel x hra
+  · simp only [List.mem_singleton] at hxp
+    subst hxp
+    exact checkVar_leaf x hleaf
+
+/-! ### References between custom properties -/
+
+/-- Custom-property names (underscore form, as `computed[...]` is indexed) of the identifiers that are direct
+arguments of a function. -/
+def identNames : List Tk → List String
+  | [] => []
+  | .ident v :: rest => dashToUnderscore v :: identNames rest
+  | _ :: rest => identNames rest
+
+mutual
+/-- Every custom property a token may refer to: the identifier arguments of every function called `var`, at
+any depth (an over-approximation of what `resolve_var` looks up). -/
+def refs : Tk → List String
+  | .fn _ l args => (if l == "var" then identNames args else []) ++ refsList args
+  | _ => []
+def refsList : List Tk → List String
+  | [] => []
+  | t :: rest => refs t ++ refsList rest
+end
+
+/-- The reference graph of the custom properties is acyclic: a rank decreases along every reference. -/
+def Acyclic (env : Env) (rk : String → Nat) : Prop :=
+  ∀ n, ∀ m ∈ refsList (env n), rk m < rk n
+
+theorem refsList_mem : ∀ (l : List Tk) (a : Tk), a ∈ l → ∀ m ∈ refs a, m ∈ refsList l
+  | [], a, h, _, _ => by cases h
+  | t :: rest, a, h, m, hm => by
+    simp only [List.mem_cons] at h
+    simp only [refsList, List.mem_append]
+    rcases h with rfl | h
+    · exact Or.inl hm
+    · exact Or.inr (refsList_mem rest a h m hm)
+
+theorem refsList_of_mem (l : List Tk) (m : String) (h : m ∈ refsList l) : ∃ a ∈ l, m ∈ refs a := by
+  induction l with
+  | nil => simp [refsList] at h
+  | cons t rest ih =>
+    simp only [refsList, List.mem_append] at h
+    rcases h with h | h
+    · exact ⟨t, by simp, h⟩
+    · obtain ⟨a, ha, hm⟩ := ih h
+      exact ⟨a, by simp [ha], hm⟩
+
+theorem identNames_mem : ∀ (l : List Tk) (v : String), Tk.ident v ∈ l → dashToUnderscore v ∈ identNames l
+  | [], v, h => by cases h
+  | t :: rest, v, h => by
+    simp only [List.mem_cons] at h
+    rcases h with rfl | h
+    · simp [identNames]
+    · have := identNames_mem rest v h
+      cases t <;> simp [identNames, this]
+
+/-- What `parse_function` keeps are arguments of the function. -/
+theorem parseArgs_mem : ∀ (a : List Tk) (b : Bool) (out : List Tk), parseArgs a b = some out →
+    ∀ x ∈ out, x ∈ a
+  | [], b, out, h, x, hx => by
+    cases b <;> simp [parseArgs] at h
+    subst h; cases hx
+  | .ws :: rest, b, out, h, x, hx => by
+    simp only [parseArgs] at h
+    simp [parseArgs_mem rest b out h x hx]
+  | .comma :: rest, b, out, h, x, hx => by
+    simp only [parseArgs] at h
+    cases b with
+    | true => simp at h
+    | false =>
+      simp only [Bool.false_eq_true, if_false] at h
+      simp [parseArgs_mem rest true out h x hx]
+  | .ident v :: rest, b, out, h, x, hx => by
+    simp only [parseArgs, parses, if_true] at h
+    cases hr : parseArgs rest false with
+    | none => simp [hr] at h
+    | some d =>
+      simp only [hr, Option.map_some, Option.some.injEq] at h
+      subst h
+      simp only [List.mem_cons] at hx ⊢
+      rcases hx with rfl | hx
+      · exact Or.inl rfl
+      · exact Or.inr (parseArgs_mem rest false d hr x hx)
+  | .leaf v :: rest, b, out, h, x, hx => by
+    simp only [parseArgs, parses, if_true] at h
+    cases hr : parseArgs rest false with
+    | none => simp [hr] at h
+    | some d =>
+      simp only [hr, Option.map_some, Option.some.injEq] at h
+      subst h
+      simp only [List.mem_cons] at hx ⊢
+      rcases hx with rfl | hx
+      · exact Or.inl rfl
+      · exact Or.inr (parseArgs_mem rest false d hr x hx)
+  | .fn n l args :: rest, b, out, h, x, hx => by
+    simp only [parseArgs] at h
+    split at h
+    · cases hr : parseArgs rest false with
+      | none => simp [hr] at h
+      | some d =>
+        simp only [hr, Option.map_some, Option.some.injEq] at h
+        subst h
+        simp only [List.mem_cons] at hx ⊢
+        rcases hx with rfl | hx
+        · exact Or.inl rfl
+        · exact Or.inr (parseArgs_mem rest false d hr x hx)
+    · cases h
 
 end Wp.C07
